@@ -471,6 +471,12 @@ def judge(st, V):
                                           relation="round trip (independent oracle)"))
             return
     if impl != model:
+        if op in ("pv_to_val", "pv_val_pv") and model == "ERR" and isinstance(impl, list) and impl[0] == "OK":
+            # TryFrom<BddPartialValuation> looks at the STORED length: the model (like the pinned code) keeps trailing unset cells
+            # and rejects; an implementation that trims them converts successfully.  The property does not fix the padding — it
+            # demands that a successful conversion is an inverse, which the independent oracle above has just confirmed.
+            V.count("try_from:accepted-where-the-model-keeps-padding")
+            return
         V.violations.append(violation(PID, st, "implementation and model disagree", oracle={"expected_by_oracle": sx_str(want)[:300] if want is not None else None},
                                       confirmed=False, relation="exact"))
         return
